@@ -1,6 +1,7 @@
 package harness
 
 import (
+	"os"
 	"encoding/json"
 	"fmt"
 	"math/rand"
@@ -528,6 +529,15 @@ func checkC01(t *testing.T, sc *Scenario) *Verdict {
 	// a time, so the runtime's own check cannot fire here; on real cores this is
 	// "fatal error: concurrent map read and map write", which no recover() catches.
 	for _, r := range newRaceReports() {
+		if f := os.Getenv("VERIF_DEBUG_RACES"); f != "" {
+			if fh, err := os.OpenFile(f, os.O_APPEND|os.O_CREATE|os.O_WRONLY, 0644); err == nil {
+				fmt.Fprintf(fh, "%s <-> %s\n", r.a, r.b)
+				fh.Close()
+			}
+			if _, err := os.Stat(f + ".full"); err != nil {
+				os.WriteFile(f+".full", []byte(r.text), 0644)
+			}
+		}
 		if r.mapConflict {
 			return v.violation("concurrent-map-access", "map: "+r.a+" <-> "+r.b, r.text, replayForm())
 		}
